@@ -17,10 +17,11 @@ def run(ctx):
     # refusals on. bad = no request pending although re-examining a record changes the state / a transaction is not final
     cfgw = dict(nt=1, nx=2, sync=False, rollback=False, faults=True, crash=False, work=True)
     wbad = ['bad:c09-idle-not-fixed-point', 'bad:c09-idle-not-final']
-    dw = 22 if quick else 30
+    dw = 20 if quick else 30
     qw = [('reach', 28, ['reach:tx1-applied']), ('bad', dw, [wbad[0]]), ('bad', dw, [wbad[1]])]
     wsteps = 12 if quick else 20
-    qw += [('bad', wsteps, wbad, way2(a, b)) for a, b in ((('C', 'C'),) if quick else (('C', 'C'), ('C', 'F'), ('A', 'C'), ('F', 'C')))]
+    if not quick:
+        qw += [('bad', wsteps, wbad, way2(a, b)) for a, b in (('C', 'C'), ('C', 'F'), ('A', 'C'), ('F', 'C'))]
     configs.append(('1x2w', cfgw, qw, []))
     if not quick:
         # three transactions on one target: the third is committed on top of a committed(-not-applied)/failed pair, then 20 steps
